@@ -208,6 +208,35 @@ def props_check(proj, pid):
                 log=out[-4000:], file=os.path.relpath(f, ROOT))
 
 
+def project_logical(proj):
+    """Logical name the project's own directory is bound to (the `-R . Name` line)."""
+    head = os.path.join(project_dir(proj), "_CoqProject.head")
+    for line in open(head):
+        t = line.split()
+        if len(t) == 3 and t[0] in ("-R", "-Q") and t[1] == ".":
+            return t[2]
+    return None
+
+
+def coqchk_props(proj, pid, timeout=3000):
+    """Thorough tier: re-check the compiled property file and everything it depends on with the
+    independent checker coqchk, and report the axioms it lists. Returns dict(ok, axioms, log)."""
+    logical = project_logical(proj)
+    if logical is None:
+        return dict(ok=False, axioms=[], log="no `-R . <name>` line in _CoqProject.head")
+    lib = "%s.props.%s" % (logical, pid)
+    with open(os.path.join(project_dir(proj), ".lock"), "w") as lk:
+        fcntl.flock(lk, fcntl.LOCK_SH)
+        rc, out = sh(["coqchk", "-silent", "-o"] + project_flags(proj) + [lib], cwd=project_dir(proj), timeout=timeout)
+    axioms = []
+    m = re.search(r"\* Axioms:(.*?)\n\s*\n\* Constants", out, re.S)
+    if m and "<none>" not in m.group(1):
+        axioms = [a.strip() for a in m.group(1).strip().split("\n") if a.strip()]
+    unsafe = [l.strip() for l in out.split("\n") if l.strip().startswith("* ") and "<none>" not in l
+              and ("type-in-type" in l or "unsafe" in l or "positivity" in l)]
+    return dict(ok=(rc == 0 and not unsafe), axioms=axioms, log=out[-2500:], library=lib)
+
+
 # ------------------------------------------------------------------ Go harness
 
 def build_harness(cmd, tags="verif"):
@@ -380,6 +409,13 @@ class Ctx:
         if not pc["ok"] or not pc["theorems"]:
             self.violation(dict(kind="property-theorem-does-not-check", broken=pc["file"], log=pc["log"]), nofail=True)
             return False
+        if self.tier == "thorough" and not os.environ.get("VERIF_NO_COQCHK"):
+            ck = coqchk_props(proj, self.pid)
+            self.oblige("coqchk -silent -o %s (independent re-check of the compiled theorems and their dependencies)" % ck.get("library"), ck["ok"])
+            self.assumptions["coqchk_axioms"] = ck["axioms"]
+            if not ck["ok"]:
+                self.violation(dict(kind="coqchk-failed", broken="coqchk %s" % ck.get("library"), log=ck["log"]), nofail=True)
+                return False
         return True
 
     def harness(self, cmd, args, out_name="cases.jsonl", timeout=1800):
